@@ -9,7 +9,7 @@
 (* <<"fail", clause>> naming the first clause the observation falsifies.   *)
 (* These operators are the only source of VIOLATION lines.                 *)
 (***************************************************************************)
-EXTENDS Integers, Sequences, FiniteSets, BigNat, Notes, Tempo, FramingP
+EXTENDS Integers, Sequences, FiniteSets, BigNat, Notes, Tempo, FramingP, Lines
 
 \* first failing clause of a sequence of <<name, bool>> pairs
 RECURSIVE FirstFail(_)
@@ -17,6 +17,18 @@ FirstFail(cs) == IF cs = <<>> THEN <<"ok", "">>
                  ELSE IF Head(cs)[2] THEN FirstFail(Tail(cs)) ELSE <<"fail", Head(cs)[1]>>
 Skip(why) == <<"skip", why>>
 Ok == <<"ok", "">>
+
+(***************************** language checks (C06-C10, C14) ****************)
+\* one product state of Lang.tla replayed on the real recognisers: r.acc are the acceptance flags of the
+\* check's automata on the witness string, those of the implementation as OBSERVED on the real code
+LangV(r) ==
+  LET A(j) == r.acc[j]
+      S(x) == { x[k] : k \in DOMAIN x }
+  IN IF ((\A j \in S(r.ppos) : A(j)) /\ (\A j \in S(r.pneg) : ~A(j)))
+          => /\ \A j \in S(r.cpos) : A(j)
+             /\ \A j \in S(r.cneg) : ~A(j)
+             /\ (r.cany = <<>> \/ \E j \in S(r.cany) : A(j))
+     THEN Ok ELSE <<"fail", r.check>>
 
 LaneSet(o) == { j - 1 : j \in { j \in 1..5 : o.lanes[j] = 1 } }
 ObsTicks(ob) == { ob[k].t : k \in DOMAIN ob }
@@ -184,6 +196,7 @@ BodyNotes(file, ticks, lo, hi) ==
        \o BodyNotes(file, ticks, lo + 1, hi)
 
 C06V(r) ==
+  IF r.kind = "lang" THEN LangV(r) ELSE
   IF r.kind = "frame" THEN
     LET secs == SectionsOf(r.file) IN
     IF ~WellFormedFile(r.file) THEN Skip("file-not-well-formed")
@@ -250,6 +263,7 @@ C13V(r) ==
 \* r.warn = <<idx>> for each unparsable-line report the index of the body line it names (0 if it names none);
 \* r.clean = digest of the section parsed without its junk lines, r.dirty = digest with them.
 C14V(r) ==
+  IF r.kind = "lang" THEN LangV(r) ELSE
   LET n == Len(r.lines)
       Want(tok) == SelectSeq([k \in 1..n |-> k], LAMBDA k : r.lines[k] = tok)
       Junk == { k \in 1..n : r.lines[k] = "junk" }
@@ -300,6 +314,79 @@ C17V(r) ==
     <<"same-result-as-a-fresh-interpreter-parse", \A k \in DOMAIN r.parses : r.parses[k].got = r.parses[k].want>>
   >>)
 
+(***************************** C07 *****************************************)
+\* r.line (code points); r.acc = [N, S, E |-> accepted by that recogniser]; r.n / r.s / r.e the decoded data
+\* (digit sequences without leading zeros, idx, word as code points) of the accepting recognisers
+C07V(r) ==
+  IF r.kind = "lang" THEN LangV(r) ELSE
+  LET s == r.line IN
+  FirstFail(<<
+    <<"canonical-N-line-accepted", Accepts(CanonN, s) => r.acc.N>>,
+    <<"canonical-S-line-accepted", Accepts(CanonS, s) => r.acc.S>>,
+    <<"canonical-E-line-accepted", Accepts(CanonE, s) => r.acc.E>>,
+    <<"only-N-shaped-lines-produce-note-data", r.acc.N => Accepts(LibN, s)>>,
+    <<"only-S-2-shaped-lines-produce-star-power", r.acc.S => Accepts(LibS, s)>>,
+    <<"only-E-word-shaped-lines-produce-track-events", r.acc.E => Accepts(LibE, s)>>,
+    <<"N-decoded-exactly", (r.acc.N /\ Accepts(LibN, s)) =>
+          LET d == DecodeN(s) IN r.n.tick = d.tick /\ r.n.idx = d.idx /\ r.n.len = d.len>>,
+    <<"S-decoded-exactly", (r.acc.S /\ Accepts(LibS, s)) =>
+          LET d == DecodeS(s) IN r.s.tick = d.tick /\ r.s.len = d.len>>,
+    <<"E-word-verbatim", (r.acc.E /\ Accepts(CanonE, s)) =>
+          LET d == DecodeE(s) IN r.e.tick = d.tick /\ r.e.word = d.word>>,
+    <<"claimed-by-at-most-one-kind", ~(r.acc.N /\ r.acc.S) /\ ~(r.acc.N /\ r.acc.E) /\ ~(r.acc.S /\ r.acc.E)>>
+  >>)
+
+(***************************** C09 *****************************************)
+\* r.kind = "line": one events-section line parsed for real; r.claimed the list it landed in ("lyric" "section"
+\* "text" "none" "several"), r.tick digits, r.value code points.
+\* r.kind = "seq": r.lines a whole canonical events section; r.got = [lyric, section, text |-> <<<<tick digits, value>>>>].
+RECURSIVE ExpectedGlobal(_, _, _)
+ExpectedGlobal(lines, kd, k) ==
+  IF k > Len(lines) THEN <<>>
+  ELSE (IF ClassifyGlobal(lines[k]) = kd THEN << <<TickDigits(lines[k]), GlobalValue(lines[k])>> >> ELSE <<>>)
+       \o ExpectedGlobal(lines, kd, k + 1)
+C09V(r) ==
+  IF r.kind = "lang" THEN LangV(r) ELSE
+  IF r.kind = "line" THEN
+    LET s == r.line  k == ClassifyGlobal(s) IN
+    FirstFail(<<
+      <<"lands-in-exactly-one-list", r.claimed # "several">>,
+      <<"classified-lyric-section-text", k # "unconstrained" => r.claimed = k>>,
+      <<"value-verbatim", (k # "unconstrained" /\ r.claimed = k) => r.value = GlobalValue(s)>>,
+      <<"at-its-own-tick", (k # "unconstrained" /\ r.claimed = k) => r.tick = TickDigits(s)>>,
+      <<"only-quoted-events-are-claimed", r.claimed \notin {"none", "several"} => Accepts(LibGlobal, s)>>
+    >>)
+  ELSE
+    IF \E k \in DOMAIN r.lines : ClassifyGlobal(r.lines[k]) = "unconstrained" THEN Skip("a-line-is-not-canonical")
+    ELSE IF r.raised # "" THEN <<"fail", "canonical-events-section-rejected">>
+    ELSE FirstFail(<<
+      <<"lyrics-in-file-order-with-tick-and-value", r.got.lyric = ExpectedGlobal(r.lines, "lyric", 1)>>,
+      <<"sections-in-file-order-with-tick-and-value", r.got.section = ExpectedGlobal(r.lines, "section", 1)>>,
+      <<"texts-in-file-order-with-tick-and-value", r.got.text = ExpectedGlobal(r.lines, "text", 1)>>
+    >>)
+
+(***************************** C10 *****************************************)
+\* r.lines = the [Song] body (code points per line); r.raised; r.obs = [field |-> observed value] as
+\* <<"str", cps>> | <<"int", digits>> | <<"p2", member name>> | <<"none">>
+LibLinesOf(f, lines)   == { k \in DOMAIN lines : IsLibFieldLine(f, lines[k]) }
+C10Field(f, r) ==
+  LET L == LibLinesOf(f, r.lines) IN
+  IF L = {} THEN (IF f = "f_resolution" THEN TRUE ELSE r.obs[f] = DefaultOf(f))         \* absent: documented default
+  ELSE IF Cardinality(L) > 1 THEN TRUE                                                    \* two lines for one field: not constrained
+  ELSE LET k == CHOOSE x \in L : TRUE IN
+       IF IsCanonFieldLine(f, r.lines[k]) THEN r.obs[f] = DecodeField(f, r.lines[k])
+       ELSE TRUE                                                                          \* non-canonical spelling: not constrained
+C10V(r) ==
+  IF r.kind = "lang" THEN LangV(r) ELSE
+  LET resL == LibLinesOf("f_resolution", r.lines) IN
+  IF resL = {} THEN
+    FirstFail(<< <<"absent-Resolution-raises-MissingRequiredField", r.raised = "MissingRequiredField">> >>)
+  ELSE IF ~(Cardinality(resL) = 1 /\ IsCanonFieldLine("f_resolution", r.lines[CHOOSE x \in resL : TRUE])) THEN Skip("resolution-line-not-canonical")
+  ELSE IF \E k \in LibLinesOf("f_player2", r.lines) : ~IsCanonFieldLine("f_player2", r.lines[k]) THEN Skip("player2-value-not-canonical")
+  ELSE IF r.raised # "" THEN <<"fail", "canonical-song-section-rejected">>
+  ELSE LET bad == { f \in FieldNames : ~C10Field(f, r) } IN
+       IF bad = {} THEN Ok ELSE <<"fail", "field-decoded-from-its-own-line-with-defaults:" \o (CHOOSE f \in bad : TRUE)>>
+
 (***************************** C08 *****************************************)
 \* r.kind = "B":  r.nd digits of n, r.m / r.e the observed tempo as m * 2^e (m the 53-bit significand)
 \* "the nearest float": |m * 2^e - n/1000| <= half an ulp = 2^e / 2, i.e. |1000 m 2^e - n| <= 500 * 2^e
@@ -308,6 +395,7 @@ NearestFloat(n, m, e) ==
   ELSE Leq(AbsDiff(MulSmall(m, 1000), Mul(n, Pow2(0 - e))), FromNat(500))
 
 C08V(r) ==
+  IF r.kind = "lang" THEN LangV(r) ELSE
   IF r.kind = "SEC" THEN <<"fail", "well-formed-sync-section-rejected">>
   ELSE IF r.raised # "" THEN <<"fail", "well-formed-line-rejected">>
   ELSE IF r.kind = "B" THEN
@@ -350,6 +438,9 @@ VerdictOf(p, r) ==
     [] p = "C04" -> C04V(r)
     [] p = "C05" -> C05V(r)
     [] p = "C08" -> C08V(r)
+    [] p = "C07" -> C07V(r)
+    [] p = "C09" -> C09V(r)
+    [] p = "C10" -> C10V(r)
     [] p = "C17" -> C17V(r)
     [] p = "C16" -> C16V(r)
     [] p = "C18" -> C18V(r)
